@@ -85,7 +85,7 @@ func (lw *leafWrapper) w2(s sdf.SDF2) sdf.SDF2 {
 	return &leaf2{inner: s, id: lw.n}
 }
 
-var model3Names = []string{"sphere-box", "csg", "extrude-poly", "screw", "extrude-bezier", "cache-extrude", "revolve", "array", "extrude-union2d", "multi-intersect"}
+var model3Names = []string{"sphere-box", "csg", "extrude-poly", "screw", "extrude-bezier", "cache-extrude", "revolve", "array", "extrude-union2d", "multi-intersect", "cache-extrude-rot"}
 
 // models that also exist in a second state reached through a setter
 var model3Variants = []string{"sphere-box+blend", "extrude-poly+twist"}
@@ -167,6 +167,11 @@ func buildModel3(name string, lw *leafWrapper) sdf.SDF3 {
 		far := lw.w2(circle(1, 3.2, -5))
 		tiny := lw.w2(circle(0.2, 0, -6.2))
 		return sdf.Extrude3D(sdf.Union2D(big, near, far, tiny), 18)
+	case "cache-extrude-rot":
+		// a cached profile, extruded and turned by a quarter: after the rotation the
+		// 2D points the cache sees for one (x,z) column differ only in their last bits
+		e := sdf.Extrude3D(sdf.Cache2D(lw.w2(starPolygon())), 8)
+		return sdf.Transform3D(e, sdf.RotateX(sdf.DtoR(90)).Mul(sdf.Translate3d(v3.Vec{X: 0.3, Y: 0.1, Z: 0})))
 	case "multi-intersect":
 		s := lw.w3(must3(sdf.Box3D(v3.Vec{X: 3, Y: 3, Z: 3}, 0.4)))
 		u := sdf.Multi3D(s, v3.VecSet{{X: 0, Y: 0, Z: 0}, {X: 4, Y: 1, Z: 0}, {X: 1, Y: 4, Z: 1}})
